@@ -261,6 +261,10 @@ package posix
 //@   at-call auth.CheckObjectAccess {C10} [lock-decision-for-this-object] requires $1 == old(*input.Bucket) && len($3) == 1 && $3[0].Key != nil && *$3[0].Key == old(*input.Key) && $5 == iface(p)
 //@   at-call posix.Posix.openTmpFile {C10} [assembled-only-after-the-lock-decision] requires decided
 //@   at-call posix.tmpfile.link {C10} [published-only-after-the-lock-decision] requires decided
+// C08: a refused completion creates nothing: once the current object has been copied to a version, the only step left
+// that can fail is the publication itself
+//@   at-return {C08} [after-the-version-copy-only-the-publication-can-fail] when called("posix.Posix.createObjVersion") && result("posix.Posix.createObjVersion", 1) == nil :: \
+//@        ensures err == nil || called("posix.tmpfile.link")
 // C08: the move into place unlinks whatever is at the target: the target is not a directory (a directory object of the
 // same name, or the parent of other keys)
 //@   at-call posix.tmpfile.link {C08} [the-target-is-not-a-directory] requires called("os.Stat") && arg("os.Stat", 0) == objname \
